@@ -79,6 +79,12 @@ def run(chk, repo, tier):
                         'emit the insertion last (deletions before insertions in a hunk)', floor=4)
     from rules import C04b
     C04b.run_p6(chk, P6, repo)
+    P7 = chk.rule('P7', 'FIX edits of an item do not reach the FIX comparison of the next repeat (the compared flag '
+                        'describes the edited node)', floor=2)
+    C04b.run_p7(chk, P7, repo)
+    P8 = chk.rule('P8', 'the running eta number advances for added and kept distributions and never for removed ones',
+                  floor=3)
+    C04b.run_p8(chk, P8, repo)
 
     tm = repo.module(f'{NM}.records.theta_record')
     om = repo.module(f'{NM}.records.omega_record')
